@@ -233,6 +233,8 @@ class Renderer:
             L.append("    clk = Port.input(Bit)")
             if ctx.get("reset"):
                 L.append("    rst = Port.input(Bit)")
+                if ctx["reset"].get("derive"):
+                    L.append("    rx = Port.input(Bit)")
         for o in sp["inputs"]:
             L.append(f"    {o['name']} = Port.input({self.ty(o)})")
         for o in sp["outputs"]:
@@ -262,19 +264,44 @@ class Renderer:
             L += self.block(sub["body"], 3)
         t = ctx["type"]
         if t in ("seq", "coro"):
-            rst = ""
-            if ctx.get("reset"):
-                r = ctx["reset"]
-                rst = f", std.Reset(self.rst, active_low={bool(r.get('active_low'))}, is_async={bool(r.get('async'))})"
+            # the same context can be spelled in several documented ways (ctx["style"]); a reset can be derived from
+            # the parent's with or_reset/and_reset (ctx["reset"]["derive"])
+            style = ctx.get("style", "direct")
+            r = ctx.get("reset")
+            parts = {"reset": None, "on_reset": None, "step_cond": None}
+            if r:
+                parts["reset"] = f"std.Reset(self.rst, active_low={bool(r.get('active_low'))}, is_async={bool(r.get('async'))})"
                 if r.get("on_reset"):
                     L.append("        def on_rst():")
                     if nonlocal_line:
                         L.append(nonlocal_line)
                     L += self.block(r["on_reset"], 3)
-                    rst += ", on_reset=on_rst"
+                    parts["on_reset"] = "on_reset=on_rst"
             if ctx.get("step_cond") is not None:
-                rst += f", step_cond=lambda: {self.rx(ctx['step_cond'])}"
-            L.append(f"        @std.sequential(std.Clock(self.clk){rst})")
+                parts["step_cond"] = f"step_cond=lambda: {self.rx(ctx['step_cond'])}"
+
+            def args(*names):
+                return ", ".join(["std.Clock(self.clk)"] + [parts[n] for n in names if parts[n]])
+
+            if r and r.get("derive"):
+                dv = r["derive"]
+                L.append(f"        ctx0 = std.SequentialContext({args('reset')})")
+                L.append(f"        ctx1 = ctx0.{dv['op']}_reset(self.rx, active_low={bool(dv.get('active_low'))})")
+                if parts["step_cond"]:
+                    L.append(f"        ctx1 = ctx1.with_params({parts['step_cond']})")
+                L.append(f"        @ctx1({parts['on_reset']})" if parts["on_reset"] else "        @ctx1")
+            elif style == "object":
+                L.append(f"        ctx0 = std.SequentialContext({args('reset', 'on_reset', 'step_cond')})")
+                L.append("        @ctx0")
+            elif style == "with_params":
+                L.append(f"        ctx0 = std.SequentialContext({args('reset', 'on_reset')})")
+                L.append(f"        ctx1 = ctx0.with_params({parts['step_cond'] or 'clk=std.Clock(self.clk)'})")
+                L.append("        @ctx1")
+            elif style == "call_on_reset":
+                L.append(f"        ctx0 = std.SequentialContext({args('reset', 'step_cond')})")
+                L.append(f"        @ctx0({parts['on_reset']})" if parts["on_reset"] else "        @ctx0")
+            else:
+                L.append(f"        @std.sequential({args('reset', 'on_reset', 'step_cond')})")
             L.append(f"        {'async ' if t == 'coro' else ''}def proc():")
         elif t == "comb":
             L.append("        @std.sequential")
